@@ -61,6 +61,13 @@ TARGETED = {
     "percent-format-and-bytes": "print('%s-%d' % ('a', 1), b'\\x00\\xff', 1e309, -1e309, 10**20)\n",
     "import-forms": "import os.path, json as j\nfrom math import floor as fl\nprint(os.path.basename('a/b'), j.dumps([1]), fl(2.5))\n",
     "global-in-nested": "g = 1\ndef a():\n    def b():\n        global g\n        g += 1\n    b()\na()\nprint(g)\n",
+    "walrus-in-displays": "print({(y := 1), y + 1}, [(z := 2), z], ((w := 3), w), {(k := 'a'): (v := 4)}, k, v)\n",
+    "walrus-in-slices-and-tuple-index": "a = list(range(6))\nprint(a[(i := 1):(j := 4)], i, j)\nd = {(1, 2): 'x'}\nprint(d[(p := 1), (q := 2)], p, q)\n",
+    "walrus-in-keyword-and-lambda": "def f(a, k=0):\n    return a + k\nprint(f((u := 1), k=(t := 2)), u, t)\ng = lambda: [(r := 5), r + 1]\nprint(g())\n",
+    "lambda-in-comprehension-condition": "y = [1, 2, 3]\nprint([x for x in y if (lambda: x > 1)()])\nprint([(lambda q=x: q * 2)() for x in y])\n",
+    "star-in-index-and-return": "def f(*a):\n    return (*a, 0)\nt = (1, 2)\nd = {(1, 2, 3): 'v'}\nprint(f(*t), d[(*t, 3)])\nfor x in (*t, 9):\n    print(x)\n",
+    "genexp-sole-argument-and-ternary-lambda": "print(sum((i * 2 for i in range(3))), (lambda: 1 if True else 2)(), (lambda: (yield_ := 3))())\n",
+    "unary-and-power-and-await-free": "a = 2\nprint(-a ** 2, (-a) ** 2, 2 ** -a, not a == 2, (not a) == 2, a if a else -a)\n",
     "matrix-mult-and-ops": "class M:\n    def __matmul__(s, o):\n        return 'mm'\n    def __imatmul__(s, o):\n        return 'imm'\nm = M()\nprint(m @ 1)\nm @= 2\nprint(m, 7 // 2, 2 ** -1, ~5, 5 >> 1)\n",
 }
 
@@ -88,6 +95,16 @@ def d18_trigger(tree, cfg, host, runtime):
                     for c in ast.walk(fv.value):
                         if isinstance(c, ast.JoinedStr) or (isinstance(c, ast.Constant) and isinstance(c.value, (str, bytes))):
                             return True
+    return False
+
+
+def star_subscript_trigger(tree, cfg, host, runtime):
+    """KF-host-unparse-star-subscript: ast.unparse of a host >= 3.11 writes `d[*t, 3]` (PEP 646 syntax)."""
+    if not (host >= (3, 11) and runtime < (3, 11) and cfg[0] == "ast.unparse"):
+        return False
+    for n in ast.walk(tree):
+        if isinstance(n, ast.Subscript) and isinstance(n.slice, ast.Tuple) and any(isinstance(e, ast.Starred) for e in n.slice.elts):
+            return True
     return False
 
 
@@ -189,6 +206,10 @@ def run_shard(rec):
                 if symptom == "runtime-compile-error" and findings.by_id("KF-fstring-host312-runtime-pre312") and (
                         d18_trigger(tree, cfg, host, rver) or (emitted is not None and d18_trigger(emitted, cfg, host, rver))):
                     rec.known_finding("KF-fstring-host312-runtime-pre312")
+                    continue
+                if symptom == "runtime-compile-error" and findings.by_id("KF-host-unparse-star-subscript") and (
+                        star_subscript_trigger(tree, cfg, host, rver) or (emitted is not None and star_subscript_trigger(emitted, cfg, host, rver))):
+                    rec.known_finding("KF-host-unparse-star-subscript")
                     continue
                 rec.violation(symptom, {"name": name, "src": rec0["src"], "cfg": list(cfg), "out": rec0["out"], "runtime": rtv,
                                         "host": "%d.%d" % host},
